@@ -827,10 +827,12 @@ fn terminal() -> BoxedStrategy<Option<Terminal>> {
 
 fn case_strategy(kinds: &'static [IterKind]) -> BoxedStrategy<IterCase> {
     let shape = prop_oneof![
-        6 => (2u8..=6, 3u8..=7),
-        3 => (0u8..=6, 0u8..=6),
-        1 => (1u8..=1, 1u8..=8),
-        1 => (1u8..=8, 1u8..=1),
+        24 => (2u8..=6, 3u8..=7),
+        12 => (0u8..=6, 0u8..=6),
+        4 => (1u8..=1, 1u8..=8),
+        4 => (1u8..=8, 1u8..=1),
+        // well beyond the exhaustive bounds (size-dependent fast paths)
+        1 => (0u8..=90, 0u8..=90),
     ];
     (proptest::sample::select(kinds), shape)
         .prop_flat_map(|(kind, (cols, rows))| {
